@@ -231,6 +231,12 @@ class TreeMachine(RuleBasedStateMachine):
                           "moving unit (expected %r)" % (sorted(units), sorted(expected)))
             got_ids.add(cand[0])
             self.verify_branch(root, cand[0], "active branch")
+            # branches of the active part are extracted branches like any other: keep them live so that later rules
+            # mutate / insert / compare them
+            if len(self.live) < 6:
+                self.live.append({"root": root, "id": cand[0], "mutated": False,
+                                  "expect": {i: freeze(c.value) for i, c in self.branch_units(root).items()}})
+                self.flags.add("active-branch-kept")
         if got_ids != expected or len(got) != len(expected):
             self.fail("active-set", "extract_active_global_state returned %r, independently moving units are %r"
                       % (sorted(got_ids), sorted(expected)))
